@@ -419,6 +419,18 @@ func init() {
 				add("cpArgTagOffset", 1, true)
 				add("cpRetTag", 0, true)
 			}
+			// D20: the copy-back block: as found `if len(opts) == 1 {…} else if len(opts) == 2 {…}` assigning
+			// into the maps unconditionally; repaired `if len(opts) >= 1 && contextMap != nil {…}` and
+			// `if len(opts) == 2 && statusMap != nil {…}`
+			emitted := strings.Join(cpStringLits(fd), "\n")
+			switch {
+			case strings.Contains(emitted, "len(opts) >= 1 && contextMap != nil") && strings.Contains(emitted, "len(opts) == 2 && statusMap != nil"):
+				add("cpFixNilMapGuard", 1, true)
+			case strings.Contains(emitted, "delete(contextMap, k)") && !strings.Contains(emitted, "contextMap != nil") && !strings.Contains(emitted, "statusMap != nil"):
+				add("cpFixNilMapGuard", 0, true)
+			default:
+				anchorLost("%s: genIFProxyFun: the copy-back block is in neither shape the model knows", grel)
+			}
 			re := regexp.MustCompile(`obj\.servant\.TarsInvoke\(tarsCtx, (\d+), `)
 			found := false
 			ast.Inspect(fd, func(n ast.Node) bool {
